@@ -7,7 +7,7 @@ PID=$1; PATCH=$(readlink -f "$2"); TIER=${3:-quick}
 W=$(mktemp -d /tmp/seedcheck.XXXXXX)
 rmdir "$W"
 git -C /repo worktree add -q --detach "$W" HEAD || exit 2
-if ! git -C "$W" apply "$PATCH"; then echo "patch does not apply"; git -C /repo worktree remove --force "$W"; exit 2; fi
+if ! git -C "$W" apply "$PATCH" 2>/dev/null && ! git -C "$W" apply -3 "$PATCH"; then echo "patch does not apply"; git -C /repo worktree remove --force "$W"; exit 2; fi
 export GOFLAGS=-mod=mod GOPROXY=off GOSUMDB=off GOTOOLCHAIN=local
 (cd "$W" && go build ./... && go test -vet=off -count=1 ./... >/dev/null 2>&1) || { echo "patched tree does not build or its own tests fail"; git -C /repo worktree remove --force "$W"; exit 2; }
 VERIF_REPO="$W" "$(dirname "$0")/../check" "$PID" --tier "$TIER"
